@@ -34,20 +34,20 @@ def pot (d : Dev) (c : S) : Nat :=
   | .ext => extPot c
   | .up => 0
 
-theorem pump_chain (d : Dev) (s : S) (h : CInv d s) (hl : s.link = true) (ha : s.armed = false)
+theorem pump_chain (d : Dev) (s : S) (h : CInv d s) (hl : s.link = true) (hd : s.dead = false) (ha : s.armed = false)
     (hne : s.stage ≠ .ext) (hnu : s.stage ≠ .up) :
-    CInv d (pump d s) ∧ (pump d s).link = true ∧ (pump d s).armed = false ∧
+    CInv d (pump d s) ∧ (pump d s).link = true ∧ (pump d s).dead = false ∧ (pump d s).armed = false ∧
       ((pump d s).stage = .up ∨ pot d (pump d s) < pot d s) := by
-  obtain ⟨h1, h2, h3, h4, h5, h6, h7, h8, h9⟩ := h
-  have h2' := h2 hl
-  have h3' := h3 hl
+  obtain ⟨h1, h2, h3, h4, h5, h6, h7, h8, h9, h10⟩ := h
+  have h2' := h2 hl hd
+  have h3' := h3 hl hd
   have h4' := h4 hne
   have h5' := h5 hnu
   have h7' := h7 hl ⟨hne, hnu⟩
-  obtain ⟨st, link, initCb, inq, armed, stage, upd, exts, parToc, vals, isUpdated, connTs, logGot, extGot, fx⟩ := s
+  obtain ⟨st, link, initCb, inq, armed, stage, upd, exts, parToc, vals, isUpdated, connTs, logGot, extGot, dead, fx⟩ := s
   obtain ⟨q, locked, pat⟩ := upd
   simp only at *
-  subst hl ha h4' h7' h9
+  subst hl hd ha h4' h7' h9
   obtain ⟨hq, hlk⟩ := h5'
   subst hq hlk
   have hext := extIds_length_le d
@@ -65,18 +65,18 @@ theorem pump_chain (d : Dev) (s : S) (h : CInv d s) (hl : s.link = true) (ha : s
     simp [work, workExt, workUpdater, send, pureS, pot, extPot, List.isEmpty_iff] at * <;>
     (first | omega | (refine ⟨?_, ?_⟩ <;> first | omega | cinv_tac) | cinv_tac))
 
-theorem pump_ext (d : Dev) (s : S) (h : CInv d s) (hl : s.link = true) (ha : s.armed = false) (hst : s.stage = .ext) :
-    CInv d (pump d s) ∧ (pump d s).link = true ∧ (pump d s).armed = false ∧
+theorem pump_ext (d : Dev) (s : S) (h : CInv d s) (hl : s.link = true) (hd : s.dead = false) (ha : s.armed = false) (hst : s.stage = .ext) :
+    CInv d (pump d s) ∧ (pump d s).link = true ∧ (pump d s).dead = false ∧ (pump d s).armed = false ∧
       ((pump d s).stage = .up ∨ pot d (pump d s) < pot d s) := by
-  obtain ⟨h1, h2, h3, h4, h5, h6, h7, h8, h9⟩ := h
-  have h2' := h2 hl
-  have h3' := h3 hl
+  obtain ⟨h1, h2, h3, h4, h5, h6, h7, h8, h9, h10⟩ := h
+  have h2' := h2 hl hd
+  have h3' := h3 hl hd
   have h5' := h5 (by simp [hst])
   have h6' := h6 hl (by simp [hst])
-  obtain ⟨st, link, initCb, inq, armed, stage, upd, exts, parToc, vals, isUpdated, connTs, logGot, extGot, fx⟩ := s
+  obtain ⟨st, link, initCb, inq, armed, stage, upd, exts, parToc, vals, isUpdated, connTs, logGot, extGot, dead, fx⟩ := s
   obtain ⟨q, locked, pat⟩ := upd
   simp only at *
-  subst hl ha hst h6' h9
+  subst hl hd ha hst h6' h9
   obtain ⟨hq, hlk⟩ := h5'
   subst hq hlk
   simp only [reduceCtorEq, and_false, false_or] at h2'
@@ -118,35 +118,38 @@ def pumpN (d : Dev) : Nat → S → S
   | 0, c => c
   | n + 1, c => pumpN d n (pump d c)
 
-theorem pump_progress (d : Dev) (s : S) (h : CInv d s) (hl : s.link = true) (ha : s.armed = false) (hnu : s.stage ≠ .up) :
-    CInv d (pump d s) ∧ (pump d s).link = true ∧ (pump d s).armed = false ∧
+theorem pump_progress (d : Dev) (s : S) (h : CInv d s) (hl : s.link = true) (hd : s.dead = false) (ha : s.armed = false)
+    (hnu : s.stage ≠ .up) :
+    CInv d (pump d s) ∧ (pump d s).link = true ∧ (pump d s).dead = false ∧ (pump d s).armed = false ∧
       ((pump d s).stage = .up ∨ pot d (pump d s) < pot d s) := by
   by_cases he : s.stage = .ext
-  · exact pump_ext d s h hl ha he
-  · exact pump_chain d s h hl ha he hnu
+  · exact pump_ext d s h hl hd ha he
+  · exact pump_chain d s h hl hd ha he hnu
 
 /-- from every fault-free linked state, at most `pot` rounds lead to the connected stage -/
-theorem pumpN_reaches_up (d : Dev) : ∀ (k : Nat) (s : S), pot d s ≤ k → CInv d s → s.link = true → s.armed = false →
-    ∃ n, n ≤ k + 1 ∧ CInv d (pumpN d n s) ∧ (pumpN d n s).link = true ∧ (pumpN d n s).stage = .up := by
+theorem pumpN_reaches_up (d : Dev) : ∀ (k : Nat) (s : S), pot d s ≤ k → CInv d s → s.link = true → s.dead = false →
+    s.armed = false →
+    ∃ n, n ≤ k + 1 ∧ CInv d (pumpN d n s) ∧ (pumpN d n s).link = true ∧ (pumpN d n s).dead = false ∧
+      (pumpN d n s).stage = .up := by
   intro k
   induction k with
   | zero =>
-    intro s hk h hl ha
+    intro s hk h hl hd ha
     by_cases hu : s.stage = .up
-    · exact ⟨0, by omega, h, hl, hu⟩
-    · have hp := pump_progress d s h hl ha hu
-      rcases hp.2.2.2 with hup | hlt
-      · exact ⟨1, by omega, hp.1, hp.2.1, hup⟩
+    · exact ⟨0, by omega, h, hl, hd, hu⟩
+    · have hp := pump_progress d s h hl hd ha hu
+      rcases hp.2.2.2.2 with hup | hlt
+      · exact ⟨1, by omega, hp.1, hp.2.1, hp.2.2.1, hup⟩
       · omega
   | succ k ih =>
-    intro s hk h hl ha
+    intro s hk h hl hd ha
     by_cases hu : s.stage = .up
-    · exact ⟨0, by omega, h, hl, hu⟩
-    · have hp := pump_progress d s h hl ha hu
-      rcases hp.2.2.2 with hup | hlt
-      · exact ⟨1, by omega, hp.1, hp.2.1, hup⟩
-      · obtain ⟨n, hn, hc, hl', hs⟩ := ih (pump d s) (by omega) hp.1 hp.2.1 hp.2.2.1
-        exact ⟨n + 1, by omega, hc, hl', hs⟩
+    · exact ⟨0, by omega, h, hl, hd, hu⟩
+    · have hp := pump_progress d s h hl hd ha hu
+      rcases hp.2.2.2.2 with hup | hlt
+      · exact ⟨1, by omega, hp.1, hp.2.1, hp.2.2.1, hup⟩
+      · obtain ⟨n, hn, hc, hl', hd', hs⟩ := ih (pump d s) (by omega) hp.1 hp.2.1 hp.2.2.1 hp.2.2.2.1
+        exact ⟨n + 1, by omega, hc, hl', hd', hs⟩
 
 /-- the operations of `n` fault-free scheduling rounds -/
 def pumpOps : Nat → List Op
